@@ -507,7 +507,9 @@ fn dense_run<T: smartcore::math::num::RealNumber + Serialize + DeserializeOwned>
     // a different matrix is not equal
     if a.r * a.c >= 1 {
         let mut b = a.clone();
-        b.d[0] += 1.0;
+        // the changed entry sits at a position derived from the content (first, last and anywhere in between)
+        let pos = (a.d.iter().fold(a.r as u64 * 131 + a.c as u64, |h, x| h.wrapping_mul(31).wrapping_add(x.to_bits() >> 44)) % (a.r * a.c) as u64) as usize;
+        b.d[pos] += 1.0;
         ensure!(!(<DenseB as Build<T>>::build(&b) == m), "dense_matrix/equal-to-different", "matrices differing in one entry compare equal");
         if a.r != a.c {
             let t = Mat { r: a.c, c: a.r, d: a.d.clone() };
